@@ -696,7 +696,7 @@ impl ParserListener for Screen {
                     self.cursor.x,
                     self.cursor.attr.clone_with_data(char.to_string()),
                 );
-                if self.cursor.x + 1 < self.columns {
+                if self.cursor.x.saturating_add(1) < self.columns {
                     line.insert(
                         self.cursor.x + 1,
                         self.cursor.attr.clone_with_data("".to_string()),
@@ -723,7 +723,8 @@ impl ParserListener for Screen {
             // .. note:: We can't use `cursor_forward()`, because that
             //           way, we'll never know when to linefeed.
             if char_width > 0 {
-                self.cursor.x = std::cmp::min(self.cursor.x + char_width as u32, self.columns);
+                self.cursor.x =
+                    std::cmp::min(self.cursor.x.saturating_add(char_width as u32), self.columns);
             }
         }
 
@@ -749,7 +750,7 @@ impl ParserListener for Screen {
             .entry(self.cursor.y)
             .or_insert_with(HashMap::new);
         for x in (self.cursor.x..self.columns).rev() {
-            if x + count < self.columns {
+            if x.saturating_add(count) < self.columns {
                 let x_val = line.get(&x);
                 match x_val {
                     Some(val) => {
@@ -793,7 +794,8 @@ impl ParserListener for Screen {
     /// # Parameters
     /// - `count`: Number of columns to skip.
     fn cursor_forward(&mut self, count: Option<u32>) {
-        self.cursor.x += count.map(|a| if a > 0 { a } else { 1 }).unwrap_or(1);
+        let count = count.map(|a| if a > 0 { a } else { 1 }).unwrap_or(1);
+        self.cursor.x = self.cursor.x.saturating_add(count);
         self.ensure_hbounds();
     }
 
@@ -895,7 +897,7 @@ impl ParserListener for Screen {
         let how = how.unwrap_or(0);
         let interval: Box<dyn Iterator<Item = u32>> = match how {
             0 => Box::new(self.cursor.x..self.columns),
-            1 => Box::new(0..u32::min(self.cursor.x + 1, self.columns)),
+            1 => Box::new(0..u32::min(self.cursor.x.saturating_add(1), self.columns)),
             2 => Box::new(0..self.columns),
             _ => return, // Ignore invalid `how` values
         };
@@ -977,7 +979,7 @@ impl ParserListener for Screen {
         let default_char = self.default_char();
         let line = self.buffer.entry(self.cursor.y).or_insert(HashMap::new());
         for x in self.cursor.x..self.columns {
-            if x + count < self.columns {
+            if x.saturating_add(count) < self.columns {
                 if let Some(char_opts) = line.remove(&(x + count)) {
                     line.insert(x, char_opts);
                 } else {
@@ -1006,7 +1008,7 @@ impl ParserListener for Screen {
         let count = count.map(|a| if a > 0 { a } else { 1 }).unwrap_or(1);
 
         let line = self.buffer.entry(self.cursor.y).or_insert(HashMap::new());
-        for x in self.cursor.x..std::cmp::min(self.cursor.x + count, self.columns) {
+        for x in self.cursor.x..std::cmp::min(self.cursor.x.saturating_add(count), self.columns) {
             line.insert(x, self.cursor.attr.clone());
         }
     }
